@@ -13,6 +13,8 @@ and diamonds; import statements at random positions among the items of a module)
 two independent extra modules.  Oracle: the VM results of the linked program equal the results of the same functions
 compiled as ONE module (and the harness's reference interpreter); every imported module is loaded exactly once
 (counting loader); a module defining an already defined function/global makes linking fail instead of replacing it.
+Struct family: the same split applied to programs whose functions pass values of one or two struct types to each other
+(a declaration then reaches a module by several import paths, or only inside the signature of an imported function).
 Correspondence: function table, load count and accept/reject of the real linker = Lean `Link.link` on the same module
 graph."""
 import os, sys, copy, pickle, random, itertools, tempfile, shutil, subprocess, hashlib
@@ -20,12 +22,15 @@ import common, implrun, progfam, proglib, gen, gen_calls, lang, refsem
 
 RULE = ("call programs with 3-8 functions split into 2-5 modules (contiguous segments), imports = modules of the callees + random extra "
         "earlier modules, import statements at random item positions; every order of adding {root, extra modules}; 3 inputs each; a "
-        "stratum with a duplicate definition (must be rejected). Non-trivial: at least one module is reached only through another "
+        "stratum with a duplicate definition (must be rejected); a struct family (5 of 16 cases): struct declarations and functions passing "
+        "struct values (also nested structs) split over modules, a module imports the declaring module only if it NAMES the type. Non-trivial: at least one module is reached only through another "
         "module's import (chain) or by two paths (diamond); distinct = distinct (module texts, add order)")
 EXHAUSTIVE = {"quick": False, "thorough": False}
 ASSUMPTIONS = ["a module that is both added explicitly and imported is merged twice and therefore rejected (modules have no identity to deduplicate on); "
                "generated add-lists never contain an imported module",
-               "globals of an imported module are not visible to the importer (not generated)"]
+               "globals of an imported module are not visible to the importer (not generated)",
+               "module names contain no dot: FilesystemModuleLoader replaces an existing suffix by .nslir (pathlib with_suffix), so a "
+               "dotted name does not name the file it was stored as"]
 TRUSTED = ["Model/Link.lean mirrors Linker.AddModule/Link and the loaders", "harness/gen_calls.py, refsem.py"]
 N = {"quick": 160, "thorough": 4000}
 
@@ -61,15 +66,24 @@ def split(rng, module):
     return mods
 
 
-# module names: half of the cases use names that differ only in a trailing letter of ".nslir" (util / utils, n, s, l, i, r ...)
+# module names: 40% of the cases use names that differ only in a trailing letter of ".nslir" (util / utils, n, s, l, i, r ...),
+# 20% names in sub-directories that share their last component (geom/util, color/util, util, a/b/lib, a/lib)
 POOL = ["util", "utils", "shape", "shapes", "vec", "vecs", "n", "s", "l", "i", "r", "lib", "libs", "color", "colori", "ab", "abn"]
 NM = ["m%d" % k for k in range(64)]
 
 
+PATHS = ["geom/util", "color/util", "geom/shape", "color/shape", "a/b/lib", "a/lib", "b/lib", "util", "lib", "a/b/util", "b/a/util", "shape"]
+
+
 def choose_names(rng):
     global NM
-    if rng.random() < .5:
+    k = rng.random()
+    if k < .4:
         NM = ["m%d" % k for k in range(64)]
+    elif k < .6:
+        # modules in sub-directories / with dotted names: the same last component or the same first component
+        pool = PATHS[:]; rng.shuffle(pool)
+        NM = pool + ["x%d" % k for k in range(64)]
     else:
         pool = POOL[:]; rng.shuffle(pool)
         NM = pool + ["x%d" % k for k in range(64)]
@@ -78,7 +92,106 @@ def choose_names(rng):
 def module_text(rng, name, funcs, imps):
     items = ['import "%s";' % NM[j] for j in imps] + [f.src() for f in funcs]
     rng.shuffle(items)
+    # struct declarations keep their relative order (a struct member of struct type names an earlier declaration)
+    decls = [f.src() for f in funcs if isinstance(f, TxtItem) and f.is_type]
+    if len(decls) > 1:
+        pos = [i for i, it in enumerate(items) if it in decls]
+        for i, d in zip(pos, decls): items[i] = d
     return "\n".join(items) + "\n"
+
+
+class TxtItem:
+    """an item of a struct-family program (struct declaration or function), kept as text"""
+    def __init__(self, text, irname=None, is_type=False, names=(), calls=(), exported=False):
+        self.text, self._irname, self.is_type, self.names, self.calls, self.exported = text, irname, is_type, set(names), set(calls), exported
+    def src(self): return self.text
+    def irname(self): return self._irname
+
+
+def struct_program(rng):
+    """A program whose functions pass struct values to each other; the struct declarations and the functions are split
+    over modules like every other program, so that one declaration reaches a module by several import paths, or only
+    through the signature of an imported function (the importer never names the type).
+    -> (items in dependency order, f, features)"""
+    import types as _t
+    feat = {}
+    def hit(k): feat[k] = feat.get(k, 0) + 1
+    nf = rng.choice([2, 3, 3, 4])
+    fields = [("m%d" % i, rng.choice(["float", "int"])) for i in range(nf)]
+    if not any(t == "float" for _, t in fields): fields[0] = (fields[0][0], "float")
+    items = [TxtItem("struct S {\n%s}" % "".join("  %s %s;\n" % (t, n) for n, t in fields), is_type=True)]
+    nested = rng.random() < .5
+    if nested:
+        items.append(TxtItem("struct T {\n  S inner;\n  float w;\n}", is_type=True, names={"S"})); hit("struct:nested")
+    lit = lambda t: ("%d.%d" % (rng.randrange(0, 4), rng.randrange(0, 10, 5))) if t == "float" else str(rng.randrange(0, 5))
+    mks, upds, reds = [], [], []
+    for k in range(rng.choice([1, 1, 2])):
+        body = "".join("s.%s = %s %s %s; " % (n, "a" if t == "float" else "b", rng.choice("+-*"), lit(t)) for n, t in fields)
+        items.append(TxtItem("function mk%d(float a, int b) -> S { S s; %sreturn s; }" % (k, body), "@mk%d->S`float,int" % k, names={"S"})); mks.append("mk%d" % k)
+    for k in range(rng.choice([0, 1, 1, 2])):
+        n, t = rng.choice(fields)
+        call = rng.random() < .4
+        pre = ("s = %s(k, 2); " % rng.choice(mks)) if call and rng.random() < .3 else ""
+        items.append(TxtItem("function upd%d(S s, float k) -> S { %ss.%s = s.%s * %s + %s; return s; }" % (k, pre, n, n, "k" if t == "float" else "2", lit(t)),
+                             "@upd%d->S`S,float" % k, names={"S"}, calls=set(mks) if pre else ())); upds.append("upd%d" % k)
+    for k in range(rng.choice([1, 2])):
+        e = " + ".join("s.%s * %s" % (n, lit(t)) for n, t in fields)
+        items.append(TxtItem("function red%d(S s) -> float { return %s; }" % (k, e), "@red%d->float`S" % k, names={"S"})); reds.append("red%d" % k)
+    if nested:
+        items.append(TxtItem("function wrap0(S s, float w) -> T { T t; t.inner = s; t.w = w; return t; }", "@wrap0->T`S,float", names={"S", "T"}))
+        r0 = rng.choice(reds)
+        items.append(TxtItem("function un0(T t) -> float { return %s(t.inner) + t.w; }" % r0, "@un0->float`T", names={"T"}, calls={r0}))
+    # the exported function: either names the struct types (locals) or only passes values from one callee to the next
+    calls, names, terms, stmts = set(), set(), [], []
+    def use(fn): calls.add(fn); return fn
+    def sval(depth=0):
+        e = "%s(a %s %s, b + %d)" % (use(rng.choice(mks)), rng.choice("+*"), lit("float"), rng.randrange(3))
+        while upds and rng.random() < .5 and depth < 2:
+            e = "%s(%s, %s)" % (use(rng.choice(upds)), e, lit("float")); depth += 1
+        return e
+    anonymous = rng.random() < .5
+    if anonymous:
+        hit("struct:root-never-names-the-type")
+        for _ in range(rng.choice([1, 2])): terms.append("%s(%s)" % (use(rng.choice(reds)), sval()))
+        if nested: terms.append("%s(%s(%s, a))" % (use("un0"), use("wrap0"), sval()))
+    else:
+        hit("struct:root-declares-locals")
+        names.add("S")
+        stmts.append("S s = %s;" % sval())
+        if upds: stmts.append("s = %s(s, %s);" % (use(rng.choice(upds)), lit("float")))
+        terms.append("%s(s)" % use(rng.choice(reds)))
+        terms.append("%s(%s)" % (use(rng.choice(reds)), sval()))
+        if nested:
+            names.add("T"); stmts.append("T t = %s(s, a);" % use("wrap0")); terms.append("%s(t)" % use("un0"))
+    items.append(TxtItem("export function f(float a, int b) -> float { %s return %s; }" % (" ".join(stmts), " + ".join(terms)), "f", names=names, calls=calls, exported=True))
+    f = _t.SimpleNamespace(params=[("a", lang.FLOAT), ("b", lang.INT)], ret=lang.FLOAT)
+    return items, f, feat
+
+
+def split_items(rng, items):
+    """like `split`, for a struct-family program: a module imports the modules declaring the struct types it NAMES and
+    the modules of its callees (plus random earlier modules); a type that only occurs in the signature of an imported
+    function is not imported."""
+    k = min(len(items), rng.choice([2, 3, 3, 4, 5]))
+    cuts = sorted(rng.sample(range(1, len(items)), k - 1))
+    segs, prev = [], 0
+    for c in cuts + [len(items)]:
+        segs.append(items[prev:c]); prev = c
+    owner = {}
+    for i, seg in enumerate(segs):
+        for it in seg:
+            if it.is_type: owner[it.text.split()[1]] = i
+            else: owner[it.text.split("function ")[1].split("(")[0]] = i
+    mods = []
+    for i, seg in enumerate(segs):
+        imps = set()
+        for it in seg:
+            for n in list(it.names) + list(it.calls):
+                if owner[n] != i: imps.add(owner[n])
+        for j in range(i):
+            if rng.random() < .25: imps.add(j)
+        mods.append((NM[i], seg, sorted(imps)))
+    return mods
 
 
 class CountingLoader:
@@ -107,15 +220,30 @@ def one_case(seed, opts):
     L = implrun.LinearIR
     rng = random.Random(seed)
     choose_names(rng)
-    g = gen_calls.CG(rng, dict(vectors=rng.random() < .5))
-    for _ in range(20):
-        whole = g.program()
-        if not lang.calls_consistent(whole): break
-    f = whole.find("f")
+    if opts.get("structs", False):
+        items, f, feat = struct_program(rng)
+        whole, whole_src = None, "\n".join(it.src() for it in items) + "\n"
+        mods = split_items(rng, items)
+    else:
+        g = gen_calls.CG(rng, dict(vectors=rng.random() < .5))
+        for _ in range(20):
+            whole = g.program()
+            if not lang.calls_consistent(whole): break
+        f = whole.find("f")
+        mods = split(rng, whole)
+        whole_src, feat = whole.src(), g.feat
+    # duplicate-definition stratum, global flavour: one module of the program declares a global that a second, explicitly
+    # added module declares again
+    dup_global = None
+    if opts.get("dup", False) and rng.random() < .4:
+        dup_global = rng.choice(["gq0", "level", "n"])
+        whole_src = "int %s;\n" % dup_global + whole_src
     inputs = [[gen.gen_value(rng, t) for _, t in f.params] for _ in range(3)]
-    mods = split(rng, whole)
-    rec = dict(seed=seed, features=dict(g.feat), nmods=len(mods))
+    rec = dict(seed=seed, features=dict(feat), nmods=len(mods), structs=bool(opts.get("structs", False)))
     texts = {name: module_text(rng, name, funcs, imps) for name, funcs, imps in mods}
+    if dup_global is not None:
+        holder = rng.choice([name for name, funcs, imps in mods])
+        texts[holder] = texts[holder] + "int %s;\n" % dup_global
     rec["texts"] = texts
     rec["imports"] = {name: [NM[j] for j in imps] for name, funcs, imps in mods}
     # shape of the import graph
@@ -131,7 +259,7 @@ def one_case(seed, opts):
         for j in imps: indeg[j] = indeg.get(j, 0) + 1
     rec["diamond"] = any(v > 1 for v in indeg.values())
     # --- whole program as one module
-    c = implrun.compile_src(whole.src())
+    c = implrun.compile_src(whole_src)
     if c[0] != 'ok':
         rec["whole_reject"] = [list(c[1]), c[2]]; return rec
     try:
@@ -141,6 +269,8 @@ def one_case(seed, opts):
     rec["whole"] = whole_out
     refs = []
     for args in inputs:
+        if whole is None:
+            refs.append(('ood', 'no reference interpreter for the struct family')); continue
         try:
             v = refsem.Ref(whole).invoke("f", copy.deepcopy(args), {})
             refs.append(('ok', lang.canon(v, f.ret)))
@@ -155,6 +285,7 @@ def one_case(seed, opts):
         use_cli = opts.get("cli", False)
         compiled = {}
         for name, funcs, imps in mods:
+            if os.path.dirname(name): os.makedirs(os.path.dirname(name), exist_ok=True)
             if use_cli:
                 open(name + ".nsl", "w").write(texts[name])
                 p = subprocess.run([common.PY, os.path.join(os.environ["NSL_SCRATCH"], "nslc.py"), name + ".nsl", "-o", name + ".nslir"],
@@ -189,9 +320,13 @@ def one_case(seed, opts):
                                           loads=sorted(loader.loads)))
         # --- duplicate definition: a second module defining one of the program's functions must be rejected
         if opts.get("dup", False):
-            victim = rng.choice([fn for name, funcs, imps in mods if (name == root or NM.index(name) in reach) for fn in funcs])
+            victim = rng.choice([fn for name, funcs, imps in mods if (name == root or NM.index(name) in reach) for fn in funcs if fn.irname() is not None])
             dup_src = victim.src().replace("export ", "")
-            cd = implrun.compile_src(dup_src if not victim.exported else victim.src())
+            if dup_global is not None:
+                reachable = [name for name, funcs, imps in mods if (name == root or NM.index(name) in reach)]
+                dup_src = "%s %s;\nexport function extraq(int a) -> int { return a; }\n" % (rng.choice(["int", "float"]), dup_global)
+                victim = None if holder in reachable else "unreachable"
+            cd = implrun.compile_src(dup_src if (victim is None or not victim.exported) else victim.src()) if victim != "unreachable" else ("skip",)
             if cd[0] == 'ok':
                 try:
                     lk = L.Linker(loader=L.FilesystemModuleLoader())
@@ -199,14 +334,14 @@ def one_case(seed, opts):
                     if rng.random() < .5: order.reverse()
                     for m in order: lk.AddModule(m)
                     prog = lk.Link()
-                    rec["dup"] = dict(status="accepted", name=victim.irname())
+                    rec["dup"] = dict(status="accepted", name=victim.irname() if victim is not None else "global " + dup_global)
                 except BaseException as e:
-                    rec["dup"] = dict(status="rejected", error=type(e).__name__)
+                    rec["dup"] = dict(status="rejected", error=type(e).__name__, kind="global" if victim is None else "function")
         # --- the model's view of the module graph
         rec["model_line"] = "link " + " ; ".join(
-            "%s : %s : %s" % (name, "!".join(fn.irname() for fn in funcs) or "-", ",".join(NM[j] for j in imps) or "-") for name, funcs, imps in mods) + \
+            "%s : %s : %s" % (name, "!".join(fn.irname() for fn in funcs if fn.irname() is not None) or "-", ",".join(NM[j] for j in imps) or "-") for name, funcs, imps in mods) + \
             " ;; " + " ".join([root] + ["extra%d" % k for k in range(len(extras))])
-        rec["expected_funcs"] = sorted([fn.irname() for name, funcs, imps in mods if (name == root or NM.index(name) in reach) for fn in funcs] + ["extra%d" % k for k in range(len(extras))])
+        rec["expected_funcs"] = sorted([fn.irname() for name, funcs, imps in mods if (name == root or NM.index(name) in reach) for fn in funcs if fn.irname() is not None] + ["extra%d" % k for k in range(len(extras))])
         rec["expected_loads"] = sorted(NM[j] for j in reach)
     finally:
         os.chdir(old)
@@ -233,7 +368,7 @@ def explore(run, scale=1):
     jobs = []
     for i in range(n):
         seed = progfam._seed_for(run.seed, "C16", i)
-        jobs.append((seed, dict(cli=(i % 8 == 0), dup=(i % 4 == 1))))
+        jobs.append((seed, dict(cli=(i % 8 == 0), dup=(i % 4 == 1), structs=(i % 4 == 2 or i % 16 == 8))))
     recs = []
     for job, rec in progfam.parallel_map(_work, jobs):
         if rec is progfam.LOST: run.count("skipped:worker died or hung"); continue
@@ -244,7 +379,8 @@ def explore(run, scale=1):
         if "infra" in rec: raise common.Infra(rec["infra"])
         if "harness_error" in rec: raise common.Infra("harness error (seed %s): %s" % (rec["seed"], rec["harness_error"]))
         for k, v in rec.get("features", {}).items(): run.count("feature:" + k, v)
-        base = dict(seed=rec["seed"], texts=rec.get("texts"))
+        base = dict(seed=rec["seed"], texts=rec.get("texts"), structs=rec.get("structs", False))
+        if rec.get("structs"): run.count("family:structs")
         if "whole_reject" in rec:
             run.count("whole-program-rejected"); continue
         if "separate_reject" in rec:
@@ -279,7 +415,7 @@ def explore(run, scale=1):
             if model != want:
                 run.mismatch("link-model", inp, model, want)
         if "dup" in rec:
-            run.case(("dup", rec["seed"]), nontrivial=True); run.count("dup:" + rec["dup"]["status"])
+            run.case(("dup", rec["seed"]), nontrivial=True); run.count("dup:" + rec["dup"]["status"]); run.count("dup-kind:" + rec["dup"].get("kind", "function"))
             if rec["dup"]["status"] != "rejected":
                 run.fail("duplicate", dict(base, name=rec["dup"]["name"]), "a second definition of %s was accepted by the linker" % rec["dup"]["name"], key="duplicate-accepted")
     d.close()
@@ -296,7 +432,7 @@ def matches(entry, failure):
 def replay(obj):
     implrun.load()
     x = obj["input"]
-    rec = one_case(x["seed"], dict(cli=False, dup=(obj["kind"] == "duplicate")))
+    rec = one_case(x["seed"], dict(cli=False, dup=(obj["kind"] == "duplicate"), structs=x.get("structs", False)))
     if obj["kind"] == "duplicate":
         ok = rec.get("dup", {}).get("status") == "rejected"
         return ok, "duplicate definition: %s" % rec.get("dup")
